@@ -29,7 +29,7 @@ from . import c20
 
 PROPERTY = "C03"
 LEVEL = "exploration"
-RUNS = {"quick": 1000, "thorough": 30000}
+RUNS = {"quick": 1400, "thorough": 30000}
 BATCH = 12
 RULE = ("seeded histories of 4-16 connections drawn from a request grammar (valid requests for every object kind "
         "in every protocol + malformed shapes: empty Gopher+ fields, NUL, out-of-range / non-numeric message "
